@@ -71,7 +71,7 @@ fn inner_cfg() -> GenCfg {
     wild: false,
     cached: false,
     cached_under_replace: false,
-    invalid_utf8: false,
+    invalid_utf8: true,
     replace: false,
     huge_positions: true,
     depth: 1,
